@@ -128,6 +128,8 @@ pub struct Monitor {
     pub found: Vec<Found>,
     /// what kind of step is being judged (mechanism label for sites)
     step_label: String,
+    /// coverage: (server-side state of the affected task before the step, what happened to it)
+    pub cells: Vec<String>,
 }
 
 fn tid(job: u32, task: u32) -> TaskId {
@@ -141,6 +143,7 @@ impl Monitor {
             s: MonState::default(),
             found: Vec::new(),
             step_label: String::new(),
+            cells: Vec::new(),
         }
     }
 
@@ -256,6 +259,54 @@ impl Monitor {
         let pre_tasks = self.s.tasks.clone();
         self.step_label = step_label(ev, obs);
 
+        // coverage matrix of Appendix B
+        for o in obs {
+            match o {
+                Obs::ToServer { tasks, .. } => {
+                    for (t, kind) in tasks {
+                        self.cells.push(format!("{} x {kind}", Self::core_state_label(pre, *t)));
+                    }
+                }
+                Obs::Kill { worker, .. } => {
+                    if let Some(p) = pre {
+                        for t in &p.core.tasks {
+                            let on = match &t.state {
+                                TaskStateSnap::Assigned { worker: w, .. }
+                                | TaskStateSnap::Prefilled { worker: w }
+                                | TaskStateSnap::Retracting { worker: w }
+                                | TaskStateSnap::Running { worker: w, .. } => w == worker,
+                                TaskStateSnap::RunningMultiNode(ws) => ws.contains(worker),
+                                _ => false,
+                            } || p.core.redirects.iter().any(|r| r.0 == t.id && r.1 == *worker);
+                            if on {
+                                self.cells.push(format!("{} x owner-or-target-lost", Self::core_state_label(pre, t.id)));
+                            }
+                        }
+                    }
+                }
+                Obs::ClientRequest { req: Req::Cancel(j), .. } => {
+                    if let Some(p) = pre {
+                        for t in &p.core.tasks {
+                            if t.id.job_id().as_num() == *j {
+                                self.cells.push(format!("{} x cancel", Self::core_state_label(pre, t.id)));
+                            }
+                        }
+                    }
+                }
+                Obs::Round(r) => {
+                    for (_, t, _) in &r.assigned {
+                        self.cells.push(format!("{} x sched-assign", Self::core_state_label(pre, *t)));
+                    }
+                    for (_, t) in &r.prefills {
+                        self.cells.push(format!("{} x sched-prefill", Self::core_state_label(pre, *t)));
+                    }
+                    for (_, t) in &r.retracts {
+                        self.cells.push(format!("{} x sched-retract", Self::core_state_label(pre, *t)));
+                    }
+                }
+                _ => {}
+            }
+        }
         for o in obs {
             match o {
                 Obs::ClientRequest { client, req, .. } => {
@@ -1863,6 +1914,7 @@ pub fn step_label(ev: Option<Ev>, obs: &[Obs]) -> String {
             format!("client:{k}")
         }
         Some(Ev::FlushDone) => "flush-done".into(),
+        Some(Ev::Disconnect(_)) => "worker-stopped".into(),
     }
 }
 
